@@ -13,7 +13,11 @@ def checks_stamp(props):
     """Hash of the sources that decide these properties (shared monitor modules + the properties' own modules) in the tree the checks run from."""
     root = os.environ.get("VERIF_SNAPSHOT", "/verif")
     h = hashlib.sha1()
-    files = sorted(glob.glob(os.path.join(root, "vmon", "*.py"))) + [os.path.join(root, "check")] + [os.path.join(root, "vmon", "props", p.lower() + ".py") for p in props]
+    propfiles = [os.path.join(root, "vmon", "props", p.lower() + ".py") for p in props]
+    text = "".join(open(f).read() for f in propfiles)
+    # shared modules every property uses, plus the ones these properties import (programs / models / numba_child)
+    mods = ["__init__", "runner", "canon", "gen", "res"] + [m for m in ("programs", "models", "numba_child") if m in text]
+    files = [os.path.join(root, "vmon", m + ".py") for m in mods] + [os.path.join(root, "check")] + propfiles
     for f in files:
         h.update(open(f, "rb").read())
     return h.hexdigest()[:12]
